@@ -709,5 +709,8 @@ func corpusSchemas() []*Sch {
 		&Sch{K: "and", Items: []*Sch{obj("strict", Field{"a", str()}), obj("strict", Field{"b", str()})}}, // unrecognized keys merged
 		&Sch{K: "rec", Key: str(), Elem: nul(str())},                      // nil record value
 		nul(opt(str())), opt(nul(str())),
+		&Sch{K: "lit", Lits: []*J{jStr("a"), jInt(1)}},                   // type tag from the first literal only
+		&Sch{K: "obj", Mode: "strip", Catch: intS("int"), Fields: []Field{{"a", str()}}, Cks: []Ck{min2}}, // size after strip
+		&Sch{K: "arr", Rest: &Sch{K: "bool"}, Items: []*Sch{str()}},        // rest without minItems
 	}
 }
